@@ -52,6 +52,8 @@ namespace sqf::runtime
             iterator begin() noexcept { return m_children.begin(); }
             iterator end() noexcept { return m_children.end(); }
             iterator find(std::string index) { return m_children.find(index); }
+            /// Forgets all entries (the name got defined anew as a value).
+            void clear_children() { m_children_vec.clear(); m_children.clear(); }
             void push_back(std::string key, size_t target_id)
             {
                 auto res = m_children.find(key);
@@ -431,6 +433,17 @@ namespace sqf::runtime
                 size_t index = m_index;
                 auto& container = m_confighost.m_containers.at(index);
                 container.value = val;
+            }
+        }
+
+        /// The entry becomes a plain value entry: it has neither entries nor a base class any more.
+        void become_value() const
+        {
+            if (!empty())
+            {
+                auto& container = m_confighost.m_containers.at(m_index);
+                container.clear_children();
+                container.id_parent_inherited = config::invalid_id;
             }
         }
 
